@@ -1,5 +1,5 @@
 """C02 - PASE admits only a peer that knows the passcode, only while a window is open."""
-from common import (bodies_of, mentions, false_edges_of_cmp, true_edges_of_cmp, closure_in, async_body, closure_arg_sites,
+from common import (equality_tests, bodies_of, mentions, false_edges_of_cmp, true_edges_of_cmp, closure_in, async_body, closure_arg_sites,
                     ok_return_bbs, variant_bbs, call_bbs, named_local, src_calls, src_fields, src_consts,
                     result_used, RESULT)
 from facts import AnchorLost, op_place, op_local
@@ -260,12 +260,41 @@ def check(R):
         bad = prims.always_followed_by(cw, [e[1] for e in te], call_bbs(cw, PASE + '::close_comm_window'))
         R.expect('P3', cw.fn, 'an expired window is closed on every path', bool(te) and not bad, 'expired => close_comm_window', f'expired path skipping close: {bad}')
 
+        # ... and the verdict is taken from the window alone: an establishment in progress (session_timeout) or any other PASE state
+        # must not be able to keep an expired window open.  Decision dependence (data or control): no branch of the function is
+        # influenced by a Pase field other than comm_window
+        pase_fields = {f['n'] for f in F.adt(PASE)['variants'][0]['fields']}
+        R.floor('fields of Pase', len(pase_fields), 2)
+        infl = []
+        for fld in sorted(pase_fields - {'comm_window'}):
+            ok_, why_ = prims.field_influences_result(cw, fld + ':' + PASE)
+            if ok_:
+                infl.append(f'{fld} ({why_})')
+        R.expect('P9', cw.fn, 'the expiry verdict depends on the window alone (no other PASE state can keep an expired window open)', not infl,
+                 'only comm_window is read into a branch', f'the verdict also depends on {infl}')
+
     # ---- f ---------------------------------------------------------------------
     with R.clause('f'):
         pass
         R.writers_confined('P1', 'session_timeout:' + PASE,
                            {PR + '::update_session_timeout', PR + '::clear_session_timeout', PASE + '::record_pake_failure',
                             PASE + '::new', PASE + '::init', 'sc::pase::initiator::PaseInitiator::initiate'}, min_sites=2)
+
+        # the single establishment slot is taken over only by the exchange that owns it: while a (non-expired) entry exists, writing a
+        # new entry is cut by `entry.exch_id == exchange.id()` - every other exchange is answered Busy
+        ust = closure_in(R, PR + '::update_session_timeout', ['SessionEstTimeout::new'])
+        news = [t for t in ust.calls('sc::pase::SessionEstTimeout::new')]
+        R.floor('SessionEstTimeout::new in update_session_timeout', len(news), 2)
+        getm = [t for t in ust.calls('core::option::Option::as_mut', 'core::option::Option::as_ref') if any(f == 'session_timeout:' + PASE for f in src_fields(prims.sources(ust, t.d['a'][0])))]
+        R.floor('session_timeout.as_mut() in update_session_timeout', len(getm), 1)
+        own = set()
+        for (bb, neg, sa_, sb_, te, fe) in equality_tests(F, ust):
+            if any(f.startswith('exch_id:') for f in src_fields(sa_ | sb_)) and 'transport::exchange::Exchange::id' in src_calls(sa_ | sb_):
+                own |= te
+        for t in getm:
+            some = prims.track_result(F, ust, t).success
+            for (frm, to) in sorted(some):
+                R.cut_from('P2', ust, to, 'take over the occupied establishment slot', [n.bb for n in news], 'the occupying entry belongs to this very exchange (exch_id == exchange.id())', own)
 
     # ---- g ---------------------------------------------------------------------
     with R.clause('g'):
